@@ -334,6 +334,7 @@ func (s *Sess) genOp() *Op {
 			op.SetAtime = r.Intn(3)
 			op.Atime = [2]uint32{uint32(r.U64()), uint32(r.Intn(1000000000))}
 		}
+		op.Guard = r.Intn(10) == 0
 		if r.Intn(3) == 0 {
 			op.SetMtime = r.Intn(3)
 			op.Mtime = [2]uint32{uint32(r.U64()), uint32(r.Intn(1000000000))}
